@@ -32,6 +32,7 @@ ASSUMPTIONS = ["without a lock only non-suspending sources are claimed (as the p
                "consumers close their child when they stop (owner closes what it advanced)"]
 EXHAUSTIVE_SUBSPACES = 'every scenario counted in scenarios_explored_exhaustively had ALL its interleavings executed (stateless DFS emptied its frontier)'
 EXHAUSTIVE = {"quick": False, "thorough": False}
+ALLOW_PINNED = int(__import__("os").environ.get("C09_ALLOW_PINNED", "0"))
 N_SCEN = {"quick": 600, "thorough": 6000}
 DFS_LIMIT = {"quick": 1500, "thorough": 40000}
 RANDOM_RUNS = {"quick": 60, "thorough": 400}
@@ -152,7 +153,7 @@ def execute(case, choose, cancel_at=None):
         stale = sum(1 for i in range(min(floor, length)) if refs[i]() is not None)
         if stale > worst["stale"]:
             worst["stale"] = stale
-        if stale > n + (1 + case["nested"] if case.get("nested") else 0):  # (+ the frames of the split child's layer)
+        if stale > ALLOW_PINNED * (n + (1 + case["nested"] if case.get("nested") else 0)):
             unstarted = any(closed[c] and not advanced[c] for c in range(n))
             viols.append(("tee/unstarted-child-never-deregisters" if unstarted else "tee/retains-items-every-live-child-yielded",
                           f"{stale} items that all live children {live} already yielded are still alive at step "
